@@ -4,6 +4,6 @@ LEVEL = "proof"
 
 def check(rep, tier):
     from contracts import tracer_trace
-    tracer_trace.run(rep, tier, interfere=True, only=("TR-fresh", "TR-id", "TR-start"))
+    rep.run(tracer_trace.run, rep, tier, interfere=True, only=("TR-fresh", "TR-id", "TR-start"))
     from contracts import discipline
-    discipline.run_frame(rep, tier)
+    rep.run(discipline.run_frame, rep, tier)
